@@ -41,12 +41,12 @@ type costMeasure struct {
 	Depth    int    // option nesting depth (top-level list = 1; 0 for v4/label/err)
 	DecNs    int64
 	EncLen   int
-	Hang     bool   // watchdog fired or decode took longer than hangLimit
+	Hang     bool   // watchdog fired or decode took longer than c09HangLimit
 	Died     string // probe died (out of memory, fatal error)
 	Names    uint64 // bytes of decoded domain names in the value (rfc1035label.Labels)
 }
 
-const hangLimit = 2 * time.Second
+const c09HangLimit = 2 * time.Second
 
 // ---- probe side -----------------------------------------------------------
 
@@ -81,31 +81,31 @@ func costDecode(entry string, b []byte) (val any, enc func() []byte, depth int, 
 	return nil, nil, 0, fmt.Errorf("bad entry")
 }
 
-// depthOpts6 mirrors Cost.depthOpts of the Lean model on the Go value.
-func depthOpts6(os dhcpv6.Options) int {
+// c09DepthOpts6 mirrors Cost.depthOpts of the Lean model on the Go value.
+func c09DepthOpts6(os dhcpv6.Options) int {
 	d := 0
 	for _, o := range os {
-		if x := depthOpt6(o); x > d {
+		if x := c09DepthOpt6(o); x > d {
 			d = x
 		}
 	}
 	return d
 }
 
-func depthOpt6(o dhcpv6.Option) int {
+func c09DepthOpt6(o dhcpv6.Option) int {
 	switch v := o.(type) {
 	case *dhcpv6.OptIANA:
-		return 1 + depthOpts6(v.Options.Options)
+		return 1 + c09DepthOpts6(v.Options.Options)
 	case *dhcpv6.OptIATA:
-		return 1 + depthOpts6(v.Options.Options)
+		return 1 + c09DepthOpts6(v.Options.Options)
 	case *dhcpv6.OptIAAddress:
-		return 1 + depthOpts6(v.Options.Options)
+		return 1 + c09DepthOpts6(v.Options.Options)
 	case *dhcpv6.OptIAPD:
-		return 1 + depthOpts6(v.Options.Options)
+		return 1 + c09DepthOpts6(v.Options.Options)
 	case *dhcpv6.OptIAPrefix:
-		return 1 + depthOpts6(v.Options.Options)
+		return 1 + c09DepthOpts6(v.Options.Options)
 	case *dhcpv6.Opt4RD:
-		return 1 + depthOpts6(v.FourRDOptions.Options)
+		return 1 + c09DepthOpts6(v.FourRDOptions.Options)
 	case *dhcpv6.OptVendorOpts:
 		return 1
 	case *dhcpv6.OptNTPServer:
@@ -113,15 +113,15 @@ func depthOpt6(o dhcpv6.Option) int {
 	default:
 		if o.Code() == dhcpv6.OptionRelayMsg {
 			// optRelayMsg is unexported: reach the carried message through its accessor
-			if m := relayMsgOf(o); m != nil {
-				return depthMsg6(m)
+			if m := c09RelayMsgOf(o); m != nil {
+				return c09DepthMsg6(m)
 			}
 		}
 	}
 	return 0
 }
 
-func relayMsgOf(o dhcpv6.Option) dhcpv6.DHCPv6 {
+func c09RelayMsgOf(o dhcpv6.Option) dhcpv6.DHCPv6 {
 	v := reflect.ValueOf(o)
 	if v.Kind() == reflect.Ptr && !v.IsNil() && v.Elem().Kind() == reflect.Struct {
 		f := v.Elem().FieldByName("Msg")
@@ -134,22 +134,22 @@ func relayMsgOf(o dhcpv6.Option) dhcpv6.DHCPv6 {
 	return nil
 }
 
-func depthMsg6(m dhcpv6.DHCPv6) int {
+func c09DepthMsg6(m dhcpv6.DHCPv6) int {
 	switch v := m.(type) {
 	case *dhcpv6.Message:
-		return 1 + depthOpts6(v.Options.Options)
+		return 1 + c09DepthOpts6(v.Options.Options)
 	case *dhcpv6.RelayMessage:
-		return 1 + depthOpts6(v.Options.Options)
+		return 1 + c09DepthOpts6(v.Options.Options)
 	}
 	return 0
 }
 
-func depthOf(val any) int {
+func c09DepthOf(val any) int {
 	switch v := val.(type) {
 	case dhcpv6.DHCPv6:
-		return depthMsg6(v)
+		return c09DepthMsg6(v)
 	case dhcpv6.Option:
-		return depthOpt6(v)
+		return c09DepthOpt6(v)
 	}
 	return 0
 }
@@ -160,14 +160,14 @@ func depthOf(val any) int {
 // strings are collected as address intervals and the UNION is measured, so
 // sub-slices of one buffer (vendor sub-options alias the ReadAll copy) are not
 // counted once per alias.
-type deepSizer struct {
+type c09DeepSizer struct {
 	seen map[uintptr]struct{}
 	ivs  [][2]uintptr
 	flat uint64
 	names uint64
 }
 
-func (d *deepSizer) mark(p uintptr) bool {
+func (d *c09DeepSizer) mark(p uintptr) bool {
 	if p == 0 {
 		return false
 	}
@@ -178,14 +178,14 @@ func (d *deepSizer) mark(p uintptr) bool {
 	return true
 }
 
-func (d *deepSizer) interval(p uintptr, n uintptr) {
+func (d *c09DeepSizer) interval(p uintptr, n uintptr) {
 	if p != 0 && n > 0 {
 		d.ivs = append(d.ivs, [2]uintptr{p, p + n})
 	}
 }
 
 // walk accounts for everything owned through v but not stored in v itself.
-func (d *deepSizer) walk(v reflect.Value) {
+func (d *c09DeepSizer) walk(v reflect.Value) {
 	switch v.Kind() {
 	case reflect.Ptr:
 		if v.IsNil() || !d.mark(v.Pointer()) {
@@ -209,7 +209,7 @@ func (d *deepSizer) walk(v reflect.Value) {
 			return
 		}
 		d.interval(v.Pointer(), uintptr(v.Cap())*v.Type().Elem().Size())
-		if hasIndirect(v.Type().Elem()) {
+		if c09HasIndirect(v.Type().Elem()) {
 			for i := 0; i < v.Len(); i++ {
 				d.walk(v.Index(i))
 			}
@@ -219,7 +219,7 @@ func (d *deepSizer) walk(v reflect.Value) {
 			d.interval(uintptr(v.UnsafePointer()), uintptr(v.Len()))
 		}
 	case reflect.Struct:
-		if v.Type() == labelsType {
+		if v.Type() == c09LabelsType {
 			f := v.FieldByName("Labels")
 			for i := 0; i < f.Len(); i++ {
 				d.names += uint64(f.Index(i).Len())
@@ -229,7 +229,7 @@ func (d *deepSizer) walk(v reflect.Value) {
 			d.walk(v.Field(i))
 		}
 	case reflect.Array:
-		if hasIndirect(v.Type().Elem()) {
+		if c09HasIndirect(v.Type().Elem()) {
 			for i := 0; i < v.Len(); i++ {
 				d.walk(v.Index(i))
 			}
@@ -248,26 +248,26 @@ func (d *deepSizer) walk(v reflect.Value) {
 	}
 }
 
-func hasIndirect(t reflect.Type) bool {
+func c09HasIndirect(t reflect.Type) bool {
 	switch t.Kind() {
 	case reflect.Ptr, reflect.Interface, reflect.Slice, reflect.String, reflect.Map:
 		return true
 	case reflect.Struct:
 		for i := 0; i < t.NumField(); i++ {
-			if hasIndirect(t.Field(i).Type) {
+			if c09HasIndirect(t.Field(i).Type) {
 				return true
 			}
 		}
 	case reflect.Array:
-		return hasIndirect(t.Elem())
+		return c09HasIndirect(t.Elem())
 	}
 	return false
 }
 
-var labelsType = reflect.TypeOf(rfc1035label.Labels{})
+var c09LabelsType = reflect.TypeOf(rfc1035label.Labels{})
 
-func deepSizeOf(val any) (uint64, uint64) {
-	d := &deepSizer{seen: map[uintptr]struct{}{}}
+func c09DeepSizeOf(val any) (uint64, uint64) {
+	d := &c09DeepSizer{seen: map[uintptr]struct{}{}}
 	d.walk(reflect.ValueOf(val))
 	sort.Slice(d.ivs, func(i, j int) bool { return d.ivs[i][0] < d.ivs[j][0] })
 	total := d.flat
@@ -285,19 +285,19 @@ func deepSizeOf(val any) (uint64, uint64) {
 	return total, d.names
 }
 
-// cpuNow: user CPU time consumed by this process so far.  The probe has one
+// c09CpuNow: user CPU time consumed by this process so far.  The probe has one
 // goroutine and no collector, so a delta is the cost of the code in between and
 // does not depend on how loaded the machine is.  System time is left out on
 // purpose: with the collector off every allocation touches fresh pages and the
 // page-fault time (which grows several-fold when probes run in parallel) is an
 // artefact of the measurement, not of the decoder.
-func cpuNow() time.Duration {
+func c09CpuNow() time.Duration {
 	var ru syscall.Rusage
 	syscall.Getrusage(syscall.RUSAGE_SELF, &ru)
 	return time.Duration(ru.Utime.Nano())
 }
 
-func measureOnce(entry string, b []byte) (res costMeasure) {
+func c09MeasureOnce(entry string, b []byte) (res costMeasure) {
 	res.N = len(b)
 	var m0, m1, m2 runtime.MemStats
 	var val any
@@ -311,9 +311,9 @@ func measureOnce(entry string, b []byte) (res costMeasure) {
 			}
 		}()
 		runtime.ReadMemStats(&m0)
-		t0 := cpuNow()
+		t0 := c09CpuNow()
 		val, enc, _, err = costDecode(entry, b)
-		res.DecNs = int64(cpuNow() - t0)
+		res.DecNs = int64(c09CpuNow() - t0)
 		runtime.ReadMemStats(&m1)
 	}()
 	if m1.TotalAlloc == 0 {
@@ -333,8 +333,8 @@ func measureOnce(entry string, b []byte) (res costMeasure) {
 	runtime.ReadMemStats(&m2)
 	res.AllocAll = m2.TotalAlloc - m0.TotalAlloc
 	res.EncLen = encLen
-	res.Deep, res.Names = deepSizeOf(val)
-	res.Depth = depthOf(val)
+	res.Deep, res.Names = c09DeepSizeOf(val)
+	res.Depth = c09DepthOf(val)
 	return res
 }
 
@@ -353,7 +353,7 @@ func runCostProbe() {
 			var res costMeasure
 			if len(f) == 2 {
 				b := unhx(f[1])
-				res = measureOnce(f[0], b)
+				res = c09MeasureOnce(f[0], b)
 			}
 			st := "err"
 			if res.OK {
@@ -432,7 +432,7 @@ func (c *costClient) measure(entry string, b []byte) costMeasure {
 	// time for decode + re-encode when several probes run side by side)
 	timeout := c.Timeout
 	if timeout == 0 {
-		timeout = 5*time.Second + time.Duration(len(b))*15*time.Second/maxUDP
+		timeout = 5*time.Second + time.Duration(len(b))*15*time.Second/c09MaxUDP
 	}
 	if c.cmd == nil {
 		if err := c.start(); err != nil {
@@ -453,7 +453,7 @@ func (c *costClient) measure(entry string, b []byte) costMeasure {
 		var r costMeasure
 		fmt.Sscan(l, &st, &r.N, &r.AllocDec, &r.AllocAll, &r.Deep, &r.Depth, &r.DecNs, &r.EncLen, &r.Names)
 		r.OK = st == "ok"
-		if time.Duration(r.DecNs) > hangLimit {
+		if time.Duration(r.DecNs) > c09HangLimit {
 			r.Hang = true
 		}
 		return r
